@@ -9,6 +9,12 @@ CHECKS = {
  "C01": ("reference-model monitor over generated hostile positions (runtime oracle)",
          "Every Layer::hash result of a generated workload (millions of positions x 30 depths, aimed at seams, borders +-ulps, poles, |lon|>=2pi) is judged by an independent HEALPix projection model: in range, point inside-or-on the returned cell within 1e-5 of a depth-29 cell, bad latitudes panic. Held-on-explored, not a proof.",
          "trusted: harness/src/refm.rs reference projection (cross-checked with mpmath), catch_unwind sees all panics", "DESIGN.md §4 C01"),
+ "C17": ("reference-model monitor (independent Calabretta-Roukema formulae) + round-trip monitors, both directions",
+         "proj/unproj/base_cell_from_proj_coo outputs for millions of generated sphere positions and plane points (facet boundaries, |y| in {1,2}, poles +-ulps, negative and >2pi longitudes) are judged against an independent projection model, round-trips and range/sign rules; out-of-range arguments must panic.",
+         "trusted: refm.rs reference projection (cross-checked with mpmath); a facet-boundary point has two admissible images, either is accepted", "DESIGN.md §4 C17"),
+ "C18": ("differential monitor against a bit-loop specification, per implementation class and per build (LUT, BMI2, debug); exhaustive on small classes",
+         "Every z-order implementation reachable (get_zoc per depth in the LUT build and in the +bmi2 build, public LARGE_ZOC_* statics) is compared with a bit-loop interleave: all pairs for depth<=8 (and all 2^32 pairs of depth 16 in thorough), byte-lane exhaustive + random deeper; uniq encodings inverse/monotone/rejecting depth>29. Exhaustive where stated, sampled elsewhere.",
+         "trusted: refm.rs bit loop; the CPU executing pdep/pext correctly", "DESIGN.md §4 C18"),
  "C02": ("exact differential monitor across the 30 depths (runtime oracle)",
          "For every generated position the 30 hashes are compared bit for bit (consecutive depths and against depth 29). Exact oracle, sampled inputs concentrated on cell borders.",
          "trusted: none beyond integer comparison; inputs are sampled", "DESIGN.md §4 C02"),
